@@ -165,6 +165,11 @@ pub struct RetryInfo {
     pub live_terms: usize,
     pub delta_terms: usize,
     pub ok: bool,
+    /// digest of what the instruction reads at the time of the retry (denotations of its
+    /// operands, content of its substitution slot, variable count and order): a need learnt in
+    /// one run applies to another run only if the instruction does the same thing there
+    #[serde(default)]
+    pub inputs: u64,
 }
 
 /// Property tag of the oracle for an instruction's result
